@@ -58,12 +58,85 @@ theorem CacheLe.upd_none {c : Key → Option Val} {k : Key} (h : c k = none) (v 
     (retExc s t rest o tp res p).hist = .exc t o tp res p :: s.hist := by
   simp [retExc]
 
-@[simp] theorem crash_cache (s t ev) : (crash s t ev).cache = s.cache := rfl
-@[simp] theorem crash_wip (s t ev) : (crash s t ev).wip = s.wip := rfl
-@[simp] theorem crash_pend (s t ev) : (crash s t ev).pend = s.pend := rfl
-@[simp] theorem crash_npend (s t ev) : (crash s t ev).npend = s.npend := rfl
-@[simp] theorem crash_hist (s t ev) : (crash s t ev).hist = ev :: s.hist := rfl
-@[simp] theorem crash_thr (s t ev) : (crash s t ev).thr = upd s.thr t [.dead] := rfl
+@[simp] theorem releaseOwned_cache (s : State) (stk : List Frame) : (releaseOwned s stk).cache = s.cache := by
+  induction stk with
+  | nil => rfl
+  | cons f rest ih => cases f <;> simp [releaseOwned, ih]
+@[simp] theorem releaseOwned_npend (s : State) (stk : List Frame) : (releaseOwned s stk).npend = s.npend := by
+  induction stk with
+  | nil => rfl
+  | cons f rest ih => cases f <;> simp [releaseOwned, ih]
+@[simp] theorem releaseOwned_thr (s : State) (stk : List Frame) : (releaseOwned s stk).thr = s.thr := by
+  induction stk with
+  | nil => rfl
+  | cons f rest ih => cases f <;> simp [releaseOwned, ih]
+@[simp] theorem releaseOwned_hist (s : State) (stk : List Frame) : (releaseOwned s stk).hist = s.hist := by
+  induction stk with
+  | nil => rfl
+  | cons f rest ih => cases f <;> simp [releaseOwned, ih]
+
+/-- releasing never changes the (ghost) key of a pending -/
+theorem releaseOwned_key (s : State) (stk : List Frame) (q : Pid) :
+    ((releaseOwned s stk).pend q).key = (s.pend q).key := by
+  induction stk with
+  | nil => rfl
+  | cons f rest ih =>
+    cases f <;> simp only [releaseOwned] <;> (try exact ih)
+    all_goals
+      simp only [upd_apply]
+      split
+      · next e => subst e; exact ih
+      · exact ih
+
+/-- releasing only removes `wip` entries -/
+theorem releaseOwned_wip_sub (s : State) (stk : List Frame) (k : Key) (p : Pid)
+    (h : (releaseOwned s stk).wip k = some p) : s.wip k = some p := by
+  induction stk with
+  | nil => exact h
+  | cons f rest ih =>
+    cases f <;> simp only [releaseOwned] at h <;> (try exact ih h)
+    all_goals
+      simp only [upd_apply] at h
+      split at h
+      · cases h
+      · exact ih h
+
+/-- an outcome present after releasing was there before, or is the abort error -/
+theorem releaseOwned_out (s : State) (stk : List Frame) (q : Pid) (res : Res)
+    (h : ((releaseOwned s stk).pend q).out = some res) :
+    (s.pend q).out = some res ∨ res = .err .aborted := by
+  induction stk with
+  | nil => exact .inl h
+  | cons f rest ih =>
+    cases f <;> simp only [releaseOwned] at h <;> (try exact ih h)
+    all_goals
+      simp only [upd_apply] at h
+      split at h
+      · next e =>
+        first
+          | (simp only at h; cases h; exact .inr rfl)
+          | (subst e; exact ih h)
+      · exact ih h
+
+/-- releasing only ever closes pendings -/
+theorem releaseOwned_done (s : State) (stk : List Frame) (q : Pid)
+    (h : (s.pend q).done = true) : ((releaseOwned s stk).pend q).done = true := by
+  induction stk with
+  | nil => exact h
+  | cons f rest ih =>
+    cases f <;> simp only [releaseOwned] <;> (try exact ih)
+    all_goals
+      simp only [upd_apply]
+      split
+      · rfl
+      · exact ih
+
+@[simp] theorem crash_cache (s t ev) : (crash s t ev).cache = s.cache := by simp [crash]
+@[simp] theorem crash_wip (s t ev) : (crash s t ev).wip = (releaseOwned s (s.thr t)).wip := rfl
+@[simp] theorem crash_pend (s t ev) : (crash s t ev).pend = (releaseOwned s (s.thr t)).pend := rfl
+@[simp] theorem crash_npend (s t ev) : (crash s t ev).npend = s.npend := by simp [crash]
+@[simp] theorem crash_hist (s t ev) : (crash s t ev).hist = ev :: s.hist := by simp [crash]
+@[simp] theorem crash_thr (s t ev) : (crash s t ev).thr = upd s.thr t [.dead] := by simp [crash]
 
 @[simp] theorem decLoop_cache (s t rest tp refs path o) :
     (decLoop s t rest tp refs path o).cache = s.cache := by
@@ -150,7 +223,7 @@ theorem fnReturn_le (cfg : Cfg) (hf : cfg.fixed = true) (s t rest tp refs res) :
     CacheLe s.cache (fnReturn cfg s t rest tp refs res).cache := by
   unfold fnReturn
   split
-  · exact CacheLe.refl _
+  · simp; exact CacheLe.refl _
   · simp; exact CacheLe.refl _
   · split
     · simp; exact CacheLe.refl _
